@@ -1,7 +1,7 @@
 """C18 — the C interface keeps ownership and memory contracts."""
 from riolib.core import Callee, MissingAnchor, op_place, span_line, is_expansion
 from riolib.prov import Prov, show, mentions, mentions_field, walk
-from riolib.sym import Sym
+from riolib.sym import Sym, for_loops
 
 THOROUGH_CONFIGS = ['dot']
 WITNESSES = ['w2']
@@ -467,6 +467,76 @@ def r18_8(ctx):
     ctx.run_rule("R18.8", "provenance of every pointer returned to C", body, floor=12)
 
 
+PTR_PRODUCERS = ("ffi_helpers::string_to_c_char", "std::boxed::Box::into_raw", "std::ffi::CString::into_raw", "http::ffi::http_headers_to_header_map")
+
+
+def r18_9(ctx):
+    """A pointer obtained from an ownership-transferring producer is never forgotten: on every path it is
+    stored / returned / handed on, or it was found null (nothing to release)."""
+    F = ctx.facts
+
+    def body(r):
+        n = 0
+        fns = [f for f in F.fn_list if not f.derived and (f.abi.startswith("C") or f.file.endswith("ffi.rs") or f.file.endswith("ffi_helpers.rs") or f.file.endswith("buffer.rs") or f.file.endswith("callback_log.rs"))]
+        for f in fns:
+            if not any(cal and call_key_of(cal) in PTR_PRODUCERS for bi, t_, cal in f.calls()):
+                continue
+            r.analysed(f)
+            s = Sym(f, copies=True, max_paths=100000)
+            lps_ = for_loops(f)
+            regions = [(None, list(s.paths()))] + [(lp, list(lp.iteration_paths(s))) for lp in lps_]
+            lost = set()
+            defs_ = f.defs()
+            for lp_, paths in regions:
+                # variables that live across iterations: also defined outside the loop
+                carried = {l for l in defs_ if f.local_name(l)}   # whole-function paths cut at a loop: any variable may be read later
+                if lp_ is not None:
+                    lb = lp_.blocks()
+                    carried = {l for l, ds in defs_.items() if any(db not in lb for db, _ in ds) and any(db in lb for db, _ in ds)}
+                for p in paths:
+                    if p.end[0] in ("diverge", "unreachable"):
+                        continue
+                    for i, e in enumerate(p.events):
+                        if e[0] != "call" or e[1] not in PTR_PRODUCERS:
+                            continue
+                        n += 1
+                        V = e[3]
+                        if any(a == ("call", "std::ptr::mut_ptr::<impl *mut T>::is_null", (V,)) and v == 1 for a, v in p.conds) or any(a[0] == "call" and a[1].endswith("is_null") and a[2] == (V,) and v == 1 for a, v in p.conds):
+                            continue  # null: nothing was produced
+                        used = False
+                        for e2 in p.events[i + 1:]:
+                            if e2[0] == "call":
+                                if e2[1].endswith("is_null"):
+                                    continue
+                                if any(mentions(a, lambda x: x == V) for a in e2[2]):
+                                    used = True
+                            elif e2[0] in ("write", "lwrite"):
+                                if mentions(e2[2], lambda x: x == V):
+                                    used = True
+                            elif e2[0] == "init":
+                                if mentions(e2[3], lambda x: x == V):
+                                    used = True
+                        if p.end[0] == "ret" and mentions(p.end[1], lambda x: x == V):
+                            used = True
+                        if p.end[0] in ("stop", "loop", "exit") and any(e2[0] == "set" and e2[1] in carried and mentions(e2[3], lambda x: x == V) for e2 in p.events[i + 1:]):
+                            # carried to the next iteration in a variable (the list head): judged where it is used
+                            used = True
+                        if not used:
+                            lost.add(show(V, f)[:70])
+            r.ob("produced-pointer-kept:%s" % f.name, not lost, f.site,
+                 "every produced pointer is stored, returned or handed on" if not lost else "%s is produced and then forgotten on some path (neither handed to the caller nor released): a leak" % sorted(lost))
+        r.ob("produced-pointer-kept:sites", n >= 10, "", "%d producer results followed" % n)
+    ctx.run_rule("R18.9", "produced pointers are never forgotten", body, floor=5)
+
+
+def call_key_of(cal):
+    try:
+        from riolib.prov import call_key
+        return call_key(cal)
+    except Exception:
+        return cal.key()
+
+
 def run(ctx):
     r18_8(ctx)
     r18_1(ctx)
@@ -476,3 +546,4 @@ def run(ctx):
     r18_5(ctx)
     r18_6(ctx)
     r18_7(ctx)
+    r18_9(ctx)
